@@ -23,6 +23,10 @@ type Script struct {
 	Stream string
 	Class  string   // generator's label for the input class (for the distribution report)
 	Lines  []string // protocol lines
+	// ModelLines, when set by runImpl, are the lines given to the model: identical to Lines
+	// except where the implementation resolved a nondeterministic choice that the model takes
+	// as an input (trace validation: e.g. which snapshot the receiver handed over).
+	ModelLines []string
 }
 
 // Stream is a named generator of scripts.
@@ -124,6 +128,9 @@ func implStep(line string) (out string) {
 
 var lastPanic string
 
+// rewrittenLine is set by an implementation op that resolved a nondeterministic choice.
+var rewrittenLine string
+
 // faultHook lets an op family classify a recovered panic (see ops_txn.go, finding D13).
 var faultHook func(fields []string, panicText string) string
 
@@ -144,9 +151,11 @@ func watched(op string) bool {
 	return strings.HasPrefix(op, "wire.") || strings.HasPrefix(op, "pb.")
 }
 
-func runImpl(s Script) []string {
+func runImpl(s *Script) []string {
 	out := make([]string, len(s.Lines))
+	s.ModelLines = make([]string, len(s.Lines))
 	for i, l := range s.Lines {
+		rewrittenLine = ""
 		if os.Getenv("LSH_TRACE") != "" {
 			fmt.Fprintln(os.Stderr, "TRACE", l)
 		}
@@ -154,6 +163,11 @@ func runImpl(s Script) []string {
 			out[i] = implStepWatch(l, 3*time.Second)
 		} else {
 			out[i] = implStep(l)
+		}
+		if rewrittenLine != "" {
+			s.ModelLines[i] = rewrittenLine
+		} else {
+			s.ModelLines[i] = l
 		}
 	}
 	return out
@@ -168,7 +182,11 @@ func runModel(scripts []Script) ([][]string, error) {
 	var in bytes.Buffer
 	total := 0
 	for _, s := range scripts {
-		for _, l := range s.Lines {
+		ls := s.Lines
+		if len(s.ModelLines) == len(s.Lines) {
+			ls = s.ModelLines
+		}
+		for _, l := range ls {
 			in.WriteString(l)
 			in.WriteByte('\n')
 			total++
@@ -269,8 +287,8 @@ func outcomeClass(s string) string {
 
 func evaluate(scripts []Script) (impl, model [][]string, err error) {
 	impl = make([][]string, len(scripts))
-	for i, s := range scripts {
-		impl[i] = runImpl(s)
+	for i := range scripts {
+		impl[i] = runImpl(&scripts[i])
 	}
 	model, err = runModel(scripts)
 	return
@@ -301,7 +319,7 @@ func shrink(s Script, kind string) Script {
 		if len(c.Lines) == 0 {
 			return false
 		}
-		impl := runImpl(c)
+		impl := runImpl(&c)
 		model, err := runModel([]Script{c})
 		if err != nil {
 			return false
@@ -425,7 +443,7 @@ func runStreams(prop, tier string, seed int64, streams []Stream, budget int, cor
 				if countKind(res.Findings, kind) < 5 {
 					sh = shrink(s, kind)
 				}
-				si := runImpl(sh)
+				si := runImpl(&sh)
 				sm, _ := runModel([]Script{sh})
 				f := Finding{Kind: kind, Stream: s.Stream, Class: s.Class, Lines: sh.Lines, Impl: si}
 				if len(sm) == 1 {
